@@ -39,6 +39,11 @@ CLAIMS = {
   note="the recompute call is not tied to the same Output value (any RecomputeAdvance/RecalculateAll on the path counts)",
   technique="static analysis: CFG must-follow with propagation to callers, must-precede under an assumed flag on go/ssa",
   ref="DESIGN.md §4 C12"),
+ "C09": dict(
+  text="Structural necessary conditions of 'font loading is total', decided over the whole module: (R-REC) every recursive SCC has a re-derived termination argument and recursion in loops a shared work budget; (R-ALLOC) every make in the font-reading packages whose size has a 32/64-bit file value in its backward slice is guarded by a comparison on that value whose other edge returns a definite error (the capacity idiom is not a guard); (R-COUNT) every signed count parameter that sizes a make without a sign test receives, at every in-module call site, an argument that is provably non-negative (unsigned conversions, len/cap, guarded differences, clamped phis, fields and callee results with the same property). Known findings: composite-glyph fan-out, findTableBuffer. Absence of index panics in hand-written table code and loop termination are NOT decided.",
+  note="64-bit int assumed for unsigned-to-int conversions; 16-bit sizes are bounded by type; stdlib decoders (zlib, png, ...) trusted",
+  technique="static analysis: call-graph SCC inventory, backward value slices and CFG edge-dominance on go/ssa, interprocedural sign analysis of count arguments",
+  ref="DESIGN.md §4 C09"),
  "C13": dict(
   text="Structural necessary conditions of 'reusable objects never leak state', decided for the caches of the reusable objects: (R-KEY/fields) every leaf of the shape-plan cache key that shapePlan.init fills from an input not covered by the map key is read by shapePlan.equal (data/control dependence of each stored value on each parameter, through callees); (R-KEY/projection) the key of the shaper's font cache is not a strict projection of an argument that the constructor of the cached value captures; (R-INV) every function outside the cached computation that may write a field read by Face.glyphExtentsRaw resets the extents cache on all paths, up to the exported API. Reset completeness of scratch state (R-STATE) is reported separately in the evidence when built. Equality of results with a fresh object in general is not decided.",
   note="field-based effects (one abstract object per type), VTA call graph; dependence analysis is scoped to the key constructor and its callees; classification tables for exempt fields carry one-line reasons in sa/c13.go",
